@@ -85,7 +85,7 @@ def check(case):
     dtype_switch = False
     for fmt in FORMATS:
         sp = with_format(spec, fmt)
-        sig_pre = ('F3|' if (f3 and fmt == 'dense') else '')
+        sig_pre = ''
         try:
             p, groups = build_problem(sp, mode='rev', force_alloc_complex=True)
             p.final_setup()
@@ -240,7 +240,7 @@ def strategy(tier):
 
 def units(tier, seed):
     n = 16 if tier == 'quick' else 32
-    per = 50 if tier == 'quick' else 1500
+    per = 25 if tier == 'quick' else 1500
     return [{'kind': 'random', 'n': per, 'seed': core.shard_seed(seed, ID, i)} for i in range(n)]
 
 
